@@ -477,3 +477,13 @@ TB = "rich/traceback.py"
 V("c17-lexer-guess-unprotected", "C17", TB, '        try:\n            lexer_name = (\n                cls.LEXERS.get(ext) or guess_lexer_for_filename(filename, code).name\n            )\n        except ClassNotFound:\n            lexer_name = "text"\n        return lexer_name\n', '        lexer_name = (\n            cls.LEXERS.get(ext) or guess_lexer_for_filename(filename, code).name\n        )\n        return lexer_name\n', "R17.11")
 V("c17-lexer-guess-reraises", "C17", TB, '        except ClassNotFound:\n            lexer_name = "text"\n', '        except ClassNotFound:\n            raise\n', "R17.11")
 V("c17-benign-lexer-guess-return", "C17", TB, '        except ClassNotFound:\n            lexer_name = "text"\n        return lexer_name\n', '        except ClassNotFound:\n            return "text"\n        return lexer_name\n', None)
+
+# ---- round 6 ---------------------------------------------------------------------
+V("c07-ratio-minimum-fallback-only", "C07", "rich/_ratio.py", "            distributed = max(minimum, ceil(ratio * total_remaining / total_ratio))\n", "            distributed = ceil(ratio * total_remaining / total_ratio) or minimum\n", "R7.16")
+V("c07-benign-ratio-minimum-if", "C07", "rich/_ratio.py", "            distributed = max(minimum, ceil(ratio * total_remaining / total_ratio))\n", "            distributed = ceil(ratio * total_remaining / total_ratio)\n            if distributed < minimum:\n                distributed = minimum\n", None)
+V("c07-widths-early-return", "C07", "rich/table.py", "        table_width = sum(widths)\n\n        if table_width > max_width:\n            widths = self._collapse_widths(", "        table_width = sum(widths)\n        if self.expand and not self.min_width:\n            return widths\n\n        if table_width > max_width:\n            widths = self._collapse_widths(", "R7.15")
+V("c10-final-line-needs-renderable", "C10", "rich/progress.py", "                if self.console.is_terminal:\n                    self.console.line()\n", "                if self.console.is_terminal and self.tasks:\n                    self.console.line()\n", "R10.14")
+V("c15-save-text-drops-styles", "C15", "rich/console.py", "        text = self.export_text(clear=clear, styles=styles)\n", "        text = self.export_text(clear=clear)\n", "R15.10")
+V("c15-strip-styles-drops-flag", "C15", "rich/segment.py", "            yield cls(text, None, is_control)\n\n    @classmethod\n    def remove_color", "            yield cls(text, None)\n\n    @classmethod\n    def remove_color", "R15.11")
+V("c16-islice-truthy-guard", "C16", "rich/pretty.py", "                    iter_values = iter(obj)\n                    if max_length is not None:\n", "                    iter_values = iter(obj)\n                    if max_length:\n", "R16.3")
+V("c16-benign-islice-unguarded", "C16", "rich/pretty.py", "                    iter_values = iter(obj)\n                    if max_length is not None:\n                        iter_values = islice(iter_values, max_length)\n", "                    iter_values = islice(iter(obj), max_length)\n", None)
